@@ -62,12 +62,41 @@ def codec_of(ctx: Context, fn: FunctionInfo, body: list[ast.stmt], param: str):
 
 
 def python_codec_tables(ctx: Context):
+    """Per compression name: what compress / decompress return, evaluated on
+    the CFG specialised on self.compression_type = <name> (so a match, an
+    if/elif chain or a shared selector helper all read the same)."""
+    from sa import pathval
+    from sa.dispatch import literal_dispatches
     comp = ctx.fn("sedpack.io.compress:CompressedFile.compress")
     deco = ctx.fn("sedpack.io.compress:CompressedFile.decompress")
-    ct, cdef = match_tables(comp, "compression_type")
-    dt, ddef = match_tables(deco, "compression_type")
-    cfam = {k: codec_of(ctx, comp, b, comp.params()[1]) for k, b in ct.items()}
-    dfam = {k: codec_of(ctx, deco, b, deco.params()[1]) for k, b in dt.items()}
+    names = set(literal_members(ctx, "CompressionT"))
+    for f in (comp, deco):
+        for d in literal_dispatches(f.body_nodes()):
+            if norm.canon(f, d.subject).endswith("compression_type"):
+                names |= {x for lits, _ in d.arms for x in lits}
+    other = "<a name no arm knows>"
+
+    def table(fn):
+        fam, default_raises = {}, False
+        param = fn.params()[1]
+        for name in sorted(names) + [other]:
+            r = pathval.returned_on(ctx, fn, {"self.compression_type": name})
+            if r == pathval.RAISES:
+                if name == other:
+                    default_raises = True
+                continue
+            if name == other:
+                continue
+            if len(r) != 1:
+                raise AnalysisError(f"{fn.fq}: {len(r)} results for "
+                                    f"compression {name!r}")
+            fam[name] = codec_of(ctx, fn, [ast.Return(value=r[0])], param)
+        return fam, default_raises
+
+    cfam, cdef = table(comp)
+    dfam, ddef = table(deco)
+    if not cfam or not dfam:
+        raise AnalysisError("C01.codec: no compression arm could be evaluated")
     py_family = {k: v[0] for k, v in cfam.items()}
     return py_family, (comp, deco, cfam, dfam, cdef, ddef)
 
@@ -101,8 +130,7 @@ def check_codec(ctx: Context, rep, rule: str) -> dict:
         rep.ob(rule, ok, loc=deco.loc(), where="CompressedFile",
                construct=f"{name!r}: compress={c}, decompress={d}",
                message="what one codec writes the same codec must read")
-    rep.ob(rule, cdef is not None and raises_in(cdef) and ddef is not None and
-           raises_in(ddef), loc=comp.loc(), where="CompressedFile",
+    rep.ob(rule, cdef and ddef, loc=comp.loc(), where="CompressedFile",
            construct="case _: raise",
            message="unknown compression names are refused in both directions")
     sup = ctx.fn("sedpack.io.compress:CompressedFile.supported_compressions")
@@ -266,31 +294,60 @@ def check_order(ctx: Context, rep, rule: str) -> None:
            "platform's byte order")
     # reader
     dec = ctx.fn(f"{FBR}:IterateShardFlatBuffer.decode_array")
-    nbo = [c for c in dec.calls() if isinstance(c.func, ast.Attribute) and
-           c.func.attr == "newbyteorder"]
-    rep.ob(rule, len(nbo) == 1 and const_str(ctx.arg(nbo[0], 0, "new_order"))
-           in ("<", "little", "L"), loc=dec.loc(nbo[0]) if nbo else dec.loc(),
-           where=dec.qualname, construct=short(nbo[0]) if nbo else "<none>",
-           message="the reader interprets the bytes as little endian")
-    dts = [c for c in dec.calls() if ctx.is_call(dec, c, "numpy.dtype")]
-    rep.ob(rule, len(dts) == 1 and ast.unparse(dts[0].args[0]).endswith(
-        "attribute.dtype") if dts else False, loc=dec.loc(), where=dec.qualname,
-           construct=short(dts[0]) if dts else "<none>",
-           message="decoded with the declared dtype")
-    fb = [c for c in dec.calls() if ctx.is_call(dec, c, "numpy.frombuffer")]
-    rep.ob(rule, len(fb) == 1 and ast.unparse(ctx.arg(fb[0], 1, "dtype") or
-                                              ast.Constant(0)) == "dt" if fb
-           else False, loc=dec.loc(), where=dec.qualname,
-           construct=short(fb[0], 70) if fb else "<none>",
-           message="frombuffer uses the little-endian declared dtype")
+    from sa.dataflow import TagFlow
+
+    def dt_hook(e, state, rec):
+        if isinstance(e, ast.Call) and ctx.is_call(dec, e, "numpy.dtype") and \
+                e.args and norm.canon(dec, e.args[0]).endswith("attribute.dtype"):
+            return frozenset({"declared"})
+        if isinstance(e, ast.Call) and isinstance(e.func, ast.Attribute) and \
+                e.func.attr == "newbyteorder":
+            order = const_str(ctx.arg(e, 0, "new_order"))
+            return frozenset(rec(e.func.value) | {
+                "le" if order in ("<", "little", "L") else "other-order"})
+        return None
+
+    dcfg = ctx.cfg(dec)
+    dtf = TagFlow(dcfg, {}, hook=dt_hook)
+    fb = [n for n in dcfg.calls() if ctx.is_call(dec, n.ast, "numpy.frombuffer")]
+    for n in fb:
+        tags = dtf.tags_at(n, ctx.arg(n.ast, 1, "dtype"))
+        rep.ob(rule, {"declared", "le"} <= tags and "other-order" not in tags,
+               loc=dec.loc(n.ast), where=dec.qualname,
+               construct=short(n.ast, 70) + f" dtype carries {sorted(tags)}",
+               message="frombuffer interprets the bytes with the declared "
+               "dtype in little-endian byte order")
+    rep.ob(rule, len(fb) == 1, loc=dec.loc(), where=dec.qualname,
+           construct=f"{len(fb)} frombuffer site(s)",
+           message="the bytes are decoded once")
+
+    def alternatives(e):
+        if isinstance(e, ast.IfExp):
+            return alternatives(e.body) + alternatives(e.orelse)
+        return [e]
+
+    def declared_shape(e) -> bool:
+        if ast.unparse(e) == "attribute.shape":
+            return True
+        return isinstance(e, ast.Tuple) and len(e.elts) == 2 and isinstance(
+            e.elts[1], ast.Starred) and ast.unparse(
+                e.elts[1].value) == "attribute.shape"
+
+    n_reshape = 0
     for c in dec.calls():
         if isinstance(c.func, ast.Attribute) and c.func.attr == "reshape":
+            n_reshape += 1
             order = ctx.arg(c, None, "order")
-            shape = c.args[0] if c.args else None
-            ok_shape = shape is not None and "attribute.shape" in ast.unparse(shape)
+            shape = norm.expand(dec, c.args[0]) if c.args else None
+            ok_shape = shape is not None and all(
+                declared_shape(a) for a in alternatives(shape))
             rep.ob(rule, (order is None or const_str(order) == "C") and ok_shape,
                    loc=dec.loc(c), where=dec.qualname, construct=short(c),
-                   message="reshape in C order to the declared shape")
+                   message="reshape in C order to the declared shape "
+                   "(optionally with a leading batch dimension)")
+    rep.ob(rule, n_reshape >= 1, loc=dec.loc(), where=dec.qualname,
+           construct=f"{n_reshape} reshape site(s)",
+           message="the flat array is given the declared shape")
     # the Python reader applies decode_array to attribute i of the
     # declaration with vector i
     it = ctx.fn(f"{FBR}:IterateShardFlatBuffer._iterate_content")
@@ -391,42 +448,62 @@ def tfrec_tables(ctx: Context):
         return None
 
     writer: dict[str, tuple[str, ast.AST]] = {}
-    chain = None
-    for n in to.body_nodes():
-        if isinstance(n, ast.If) and dtype_set(n.test) is not None and \
-                not isinstance(parent(n), ast.If) and any(
-                    isinstance(c, ast.Call) and isinstance(c.func, ast.Name) and
-                    c.func.id.endswith("_feature") for s in n.body
-                    for c in ast.walk(s)):
-            chain = n
-            break
-    if chain is None:
-        raise AnalysisError("C01.tfrec: writer dispatch chain not found")
-    cur: ast.AST | None = chain
-    default_raises = False
-    while isinstance(cur, ast.If):
-        ds = dtype_set(cur.test)
-        if ds is None:
-            raise AnalysisError(f"{to.loc(cur)}: writer dispatch test not "
-                                f"understood: {short(cur.test)}")
+    from sa.dispatch import general_dispatches
+
+    def table_members(e: ast.AST) -> set[str] | None:
+        if isinstance(e, ast.Name) and e.id in mod.globals:
+            g = mod.globals[e.id]
+            if isinstance(g, ast.Dict):
+                return {k.value for k in g.keys if isinstance(k, ast.Constant)}
+            if isinstance(g, (ast.List, ast.Tuple, ast.Set)):
+                return {x.value for x in g.elts if isinstance(x, ast.Constant)}
+            if isinstance(g, ast.Call) and dotted(g.func) in (
+                    "frozenset", "set", "tuple", "list") and len(
+                        g.args) == 1 and isinstance(
+                            g.args[0], (ast.List, ast.Tuple, ast.Set)):
+                return {x.value for x in g.args[0].elts
+                        if isinstance(x, ast.Constant)}
+        return None
+
+    chains = [d for d in general_dispatches(to.body_nodes())
+              if norm.canon(to, d.subject).endswith("attribute.dtype") and any(
+                  isinstance(c, ast.Call) and isinstance(c.func, ast.Name) and
+                  c.func.id.endswith("_feature") for _t, body in d.arms
+                  for s in body for c in ast.walk(s))]
+    if len(chains) != 1:
+        raise AnalysisError("C01.tfrec: writer dispatch on attribute.dtype "
+                            f"found {len(chains)} times")
+    disp = chains[0]
+    for tests, body in disp.arms:
+        ds: set[str] = set()
+        for kind_, v in tests:
+            if kind_ == "lit":
+                ds.add(v)
+            else:
+                m = table_members(v)
+                if m is None:
+                    raise AnalysisError(
+                        f"{to.loc(v)}: writer dispatch test not understood: "
+                        f"{short(v)}")
+                ds |= m
         kind = None
-        for c in [c for s in cur.body for c in ast.walk(s)
+        for c in [c for s in body for c in ast.walk(s)
                   if isinstance(c, ast.Call)]:
             if isinstance(c.func, ast.Name) and c.func.id.endswith("_feature"):
                 kind = c.func.id
         ser = any(isinstance(c, ast.Call) and ast.unparse(c.func).endswith(
-            "serialize_tensor") for s in cur.body for c in ast.walk(s))
+            "serialize_tensor") for s in body for c in ast.walk(s))
         if kind is None:
-            raise AnalysisError(f"{to.loc(cur)}: writer arm without feature")
+            raise AnalysisError(f"{to.loc(body[0])}: writer arm without "
+                                "feature")
+        arm_node = body[0]
+        while arm_node is not None and not isinstance(
+                arm_node, (ast.If, ast.match_case)):
+            arm_node = parent(arm_node)
         for d in ds:
             writer.setdefault(d, (kind + ("+serialize_tensor" if ser else ""),
-                                  cur))
-        nxt = cur.orelse
-        if len(nxt) == 1 and isinstance(nxt[0], ast.If):
-            cur = nxt[0]
-        else:
-            default_raises = raises_in(nxt)
-            cur = None
+                                  arm_node if arm_node is not None else body[0]))
+    default_raises = disp.default is not None and raises_in(disp.default)
     reader: dict[str, str] = {}
     rd = None
     for n in frm.body_nodes():
@@ -681,9 +758,12 @@ def check_npz_reader(ctx: Context, rep, rule: str) -> None:
         fn = ctx.fn(f"sedpack.io.npz.iterate_npz:{q}")
         ys = [n for n in fn.body_nodes() if isinstance(n, ast.Yield)]
         ok = False
-        if len(ys) == 1 and isinstance(ys[0].value, ast.DictComp):
-            dc = ys[0].value
-            loop = parent(parent(ys[0]))
+        yv = norm.expand(fn, ys[0].value) if len(ys) == 1 else None
+        if isinstance(yv, ast.DictComp):
+            dc = yv
+            from sa.model import ancestors
+            loop = next((a for a in ancestors(ys[0]) if isinstance(
+                a, (ast.For, ast.AsyncFor, ast.While))), None)
             ok = isinstance(loop, ast.For) and isinstance(
                 loop.iter, ast.Call) and ast.unparse(loop.iter.func) == "range" \
                 and len(loop.iter.args) == 1 and isinstance(
@@ -693,7 +773,7 @@ def check_npz_reader(ctx: Context, rep, rule: str) -> None:
                 and ast.unparse(dc.generators[0].iter).endswith(".items()") and \
                 not dc.generators[0].ifs
         rep.ob(rule, ok, loc=fn.loc(), where=fn.qualname,
-               construct=short(ys[0].value, 80) if ys else "<none>",
+               construct=short(yv, 80) if yv is not None else "<none>",
                message="example i = {name: array[i]} for i in range(length)")
 
 
